@@ -398,6 +398,8 @@ func c16Catalogue() []PoolCase {
 		{Workers: 1, Pre: run, Actors: [][]POp{{{K: "send", Job: "gate"}, {K: "send", Job: "noop"}, {K: "cancelrun"}, {K: "send", Job: "noop"}, {K: "stop"}}}},
 		{Workers: 2, Pre: run, Actors: [][]POp{{{K: "send", Job: "ctx"}, {K: "send", Job: "noop"}, {K: "send", Job: "noop"}}, {{K: "cancelrun"}, {K: "stop"}, {K: "run"}, {K: "send", Job: "noop"}}}, Post: stop},
 		// second generation: a first Run/Stop cycle that ended with a busy flusher, then the deferred path again
+		// pools whose size is not a power of two, with several jobs deferred at the same time
+		{Workers: 3, Pre: run, Post: stop, Actors: [][]POp{append(sends(3, "gate"), sends(11, "noop")...)}},
 		{Workers: 1, Pre: firstGeneration(1, 5), Post: stop, Actors: [][]POp{append(sends(1, "gate"), sends(4, "noop")...)}},
 		{Workers: 2, Pre: firstGeneration(2, 8), Post: stop, Actors: [][]POp{append(sends(2, "gate"), sends(6, "noop")...)}},
 	}
@@ -453,6 +455,20 @@ func genPool(t *rapid.T) PoolCase {
 			c.Actors = append(c.Actors, s)
 		}
 		c.Post = []POp{{K: "stop"}}
+	} else if rapid.IntRange(0, 5).Draw(t, "wide") == 0 {
+		// a pool of 3, 5, 6 or 7 workers (sizes that are not powers of two): all workers blocked, the
+		// channel full, then 3-8 more jobs that have to wait in the deferred list at the same time
+		c.Workers = rapid.SampledFrom([]int{3, 5, 6, 7}).Draw(t, "wideWorkers")
+		c.Pre = []POp{{K: "run"}}
+		c.Actors = append(c.Actors, append(sends(c.Workers, "gate"), sends(2*c.Workers+rapid.IntRange(3, 8).Draw(t, "deferred"), "noop")...))
+		if rapid.Bool().Draw(t, "secondSender") {
+			c.Actors = append(c.Actors, sends(rapid.IntRange(1, 4).Draw(t, "nsends2"), "noop"))
+		}
+		c.Post = []POp{{K: "stop"}}
+		if rapid.Bool().Draw(t, "wideTape") {
+			c.Sched = Schedule{Tape: rapid.SliceOfN(rapid.Byte(), 50, 400).Draw(t, "tape"), Threshold: rapid.SampledFrom([]int{5, 13, 26}).Draw(t, "threshold")}
+		}
+		return c
 	} else if rapid.IntRange(0, 2).Draw(t, "burst") == 0 {
 		// bursts of no-op jobs against one worker: the channel fills and drains while Sends are still
 		// arriving, so the deferred path and the flusher's exit are exercised dynamically
